@@ -188,10 +188,10 @@ type mptSpec struct {
 	resets    map[string][]string
 	inline    func(f *ssa.Function) bool
 	target    func(in ssa.Instruction, st *PState, e *pathEngine) string
-	reqs      func(label string) []string // requirements per target label
+	reqs      func(label string) []string                                              // requirements per target label
 	check     func(label string, in ssa.Instruction, st *PState, e *pathEngine) string // custom requirement (instead of reqs)
-	desc      string                                                              // description of the custom requirement
-	minTarget int                         // minimal number of distinct target instructions (floor)
+	desc      string                                                                   // description of the custom requirement
+	minTarget int                                                                      // minimal number of distinct target instructions (floor)
 }
 
 // mpt runs the spec and records one obligation per target label (plus undecided reasons).
@@ -423,18 +423,23 @@ func firstOf(fs ...func(in ssa.Instruction) string) func(in ssa.Instruction) str
 
 type cmpSpec struct {
 	name string
-	op   token.Token             // EQL (also matches NEQ, negated) or an ordering operator (exact, operands in order)
+	op   token.Token            // EQL (also matches NEQ, negated) or an ordering operator (exact, operands in order)
 	x, y func(path string) bool // predicates on the operand paths
 }
 
-func pathIs(s string) func(string) bool       { return func(p string) bool { return p == s } }
-func pathHasSuffix(s string) func(string) bool { return func(p string) bool { return strings.HasSuffix(p, s) } }
-func pathContains(s string) func(string) bool  { return func(p string) bool { return strings.Contains(p, s) } }
-func pathAny() func(string) bool               { return func(string) bool { return true } }
+func pathIs(s string) func(string) bool { return func(p string) bool { return p == s } }
+func pathHasSuffix(s string) func(string) bool {
+	return func(p string) bool { return strings.HasSuffix(p, s) }
+}
+func pathContains(s string) func(string) bool {
+	return func(p string) bool { return strings.Contains(p, s) }
+}
+func pathAny() func(string) bool { return func(string) bool { return true } }
 
 // cmpAtoms builds an Atom function from comparison specs. For op EQL the atom means "operands are
 // equal" (a != comparison is reported negated, operands may be swapped); for an ordering operator
-// the atom means exactly "x op y".
+// the atom means "x op y" and every equivalent spelling is recognised (y swapped-op x; the complementary operator is
+// reported negated).
 func cmpAtoms(p *Prog, specs ...cmpSpec) func(v ssa.Value) (string, bool) {
 	return func(v ssa.Value) (string, bool) {
 		b, ok := v.(*ssa.BinOp)
@@ -455,18 +460,78 @@ func cmpAtoms(p *Prog, specs ...cmpSpec) func(v ssa.Value) (string, bool) {
 				if (s.x(px) && s.y(py)) || (s.x(py) && s.y(px)) {
 					return s.name, b.Op == token.NEQ
 				}
-			default:
-				if b.Op != s.op {
+			case token.NEQ:
+				if b.Op != token.EQL && b.Op != token.NEQ {
 					continue
 				}
 				if !got {
 					px, py, got = p.path(b.X), p.path(b.Y), true
 				}
-				if s.x(px) && s.y(py) {
-					return s.name, false
+				if (s.x(px) && s.y(py)) || (s.x(py) && s.y(px)) {
+					return s.name, b.Op == token.EQL
+				}
+			default:
+				if !isOrdering(b.Op) {
+					continue
+				}
+				if !got {
+					px, py, got = p.path(b.X), p.path(b.Y), true
+				}
+				if m, neg := ordMatch(b.Op, px, py, s.op, s.x, s.y); m {
+					return s.name, neg
 				}
 			}
 		}
 		return "", false
 	}
+}
+
+func isOrdering(op token.Token) bool {
+	return op == token.GTR || op == token.LSS || op == token.GEQ || op == token.LEQ
+}
+
+func swapOrd(op token.Token) token.Token {
+	switch op {
+	case token.GTR:
+		return token.LSS
+	case token.LSS:
+		return token.GTR
+	case token.GEQ:
+		return token.LEQ
+	case token.LEQ:
+		return token.GEQ
+	}
+	return op
+}
+
+func negOrd(op token.Token) token.Token {
+	switch op {
+	case token.GTR:
+		return token.LEQ
+	case token.LSS:
+		return token.GEQ
+	case token.GEQ:
+		return token.LSS
+	case token.LEQ:
+		return token.GTR
+	}
+	return op
+}
+
+// ordMatch decides whether the integer comparison "px op py" is the wanted comparison "x want y" (match, neg=false)
+// or its exact negation (match, neg=true), in any of the four spellings (a>b, b<a, !(a<=b), !(b>=a)).
+func ordMatch(op token.Token, px, py string, want token.Token, x, y func(string) bool) (bool, bool) {
+	if op == want && x(px) && y(py) {
+		return true, false
+	}
+	if swapOrd(op) == want && x(py) && y(px) {
+		return true, false
+	}
+	if negOrd(op) == want && x(px) && y(py) {
+		return true, true
+	}
+	if swapOrd(negOrd(op)) == want && x(py) && y(px) {
+		return true, true
+	}
+	return false, false
 }
